@@ -22,8 +22,12 @@ class Clause:
     node: ast.AST | None = None
 
     bounded: bool = False
+    ghost: bool = False               # mentions ghost fields: not evaluable at run time
 
     def __post_init__(self):
+        if self.label.endswith('[ghost]'):
+            self.label = self.label[: -len('[ghost]')]
+            self.ghost = True
         if self.label.endswith('[bounded]'):
             self.label = self.label[: -len('[bounded]')]
             self.bounded = True
@@ -70,6 +74,7 @@ class Contract:
     definitions: list = field(default_factory=list)  # definitional axioms of ghost functions (assumed; recorded)
     class_map: dict = field(default_factory=dict)    # static class instantiation, e.g. KFACBaseLayer -> KFACEigenLayer
     theories: tuple = ()                             # opt-in background facts (e.g. 'strided_ranges')
+    ghost_sets: list = field(default_factory=list)   # [(target 'obj.ghost_field', value expr)]: ghost update at normal exit
 
 
 REGISTRY: dict[str, Contract] = {}
@@ -95,7 +100,8 @@ def _clauses(items, props=()):
 def contract(key, *, props=(), params=None, closure=None, result=None, requires=(), ensures=(),
              raises=(), may_raise=(), modifies=(), loops=None, mode='contract', self_cls=None,
              lets=None, trusted=False, note='', float_mode='R', covers=(), locals=None, exsures=(),
-             unknown_may_raise=False, hints=(), ranks=None, definitions=(), class_map=None, theories=()):
+             unknown_may_raise=False, hints=(), ranks=None, definitions=(), class_map=None, theories=(),
+             ghost_sets=()):
     props = tuple(props)
     lp = {}
     for k, v in (loops or {}).items():
@@ -117,6 +123,7 @@ def contract(key, *, props=(), params=None, closure=None, result=None, requires=
         exsures=[(e, Clause(f'exsures:{e}:{l}', t, props)) for e, l, t in exsures],
         unknown_may_raise=unknown_may_raise, hints=_clauses(hints, props), ranks=dict(ranks or {}),
         definitions=_clauses(definitions, props), class_map=dict(class_map or {}), theories=tuple(theories),
+        ghost_sets=[tuple(g) for g in ghost_sets],
     )
     REGISTRY[key] = c
     return c
@@ -176,8 +183,8 @@ def export_contract(key):
         'params': {k: repr(v) for k, v in c.params.items()},
         'closure': {k: repr(v) for k, v in c.closure.items()},
         'result': repr(c.result) if c.result is not None else None,
-        'requires': [(cl.label, cl.text) for cl in c.requires],
-        'ensures': [(cl.label, cl.text) for cl in c.ensures],
+        'requires': [(cl.label, cl.text) for cl in c.requires if not cl.ghost],
+        'ensures': [(cl.label, cl.text) for cl in c.ensures if not cl.ghost],
         'bounded_clauses': [cl.label for cl in c.ensures if cl.bounded],
         'mode': c.mode,
         'raises': [(e, cl.text) for e, cl in c.raises],
